@@ -130,6 +130,7 @@ theorem HT.send0 {P : TS} {c : Obj} (h : sp.chanPay c = []) : HT sp kids t P [.s
 theorem HT.close0 {P : TS} {c : Obj} (h : sp.closePay c = []) : HT sp kids t P [.close c] P := HT.give0 (fun _ => rfl) h
 theorem HT.spawn0 {P : TS} {u : Tid} (h : sp.spawnPay u = []) : HT sp kids t P [.spawn u] P := HT.give0 (fun _ => rfl) h
 theorem HT.unlock0 {P : TS} {m : Obj} (h : sp.mtxPay m = []) : HT sp kids t P [.unlock m] P := HT.give0 (fun _ => rfl) h
+theorem HT.wgDone0 {P : TS} {w : Obj} (h : sp.donePay w t = []) : HT sp kids t P [.wgDone w] P := HT.give0 (fun _ => rfl) h
 theorem HT.recv0 {P : TS} (c : Obj) : HT sp kids t P [.recv c] P := HT.take0 (fun _ => rfl)
 theorem HT.recvC0 {P : TS} (c : Obj) : HT sp kids t P [.recvC c] P := HT.take0 (fun _ => rfl)
 theorem HT.lock0 {P : TS} (m : Obj) : HT sp kids t P [.lock m] P := HT.take0 (fun _ => rfl)
